@@ -550,6 +550,12 @@ func (c *Client) filterTx(tx *wire.MsgTx, block *wtxmgr.BlockMeta, notify bool) 
 			relevant = true
 			break
 		}
+		if c.BtcdStyleRescan {
+			// btcd's transaction filter matches inputs by outpoint only; the
+			// bitcoind client also recognises a spender by the script its
+			// signature script / witness reveals
+			continue
+		}
 		pk, err := txscript.ComputePkScript(in.SignatureScript, in.Witness)
 		if err != nil {
 			continue
